@@ -26,10 +26,25 @@ import (
 )
 
 const (
-	repoDir  = "/repo"
 	verifDir = "/verif"
 	modPath  = "github.com/icon-project/goloop"
 )
+
+// repoDir is /repo; VERIF_REPO_DIR / VERIF_REPLAY_ROOT exist only so that the
+// seeded-change regression (tools/seed_all.sh) can run against a scratch
+// worktree without touching /repo or the replays of a concurrent run.  The
+// registered commands never set them.
+var (
+	repoDir    = envOr("VERIF_REPO_DIR", "/repo")
+	replayRoot = envOr("VERIF_REPLAY_ROOT", filepath.Join(verifDir, "replays"))
+)
+
+func envOr(k, d string) string {
+	if v := os.Getenv(k); v != "" {
+		return v
+	}
+	return d
+}
 
 type TierSpec struct {
 	Params     map[string]int64 `json:"params"`
@@ -422,7 +437,7 @@ func cmdCheck(args []string) int {
 		seen := map[string]bool{}
 		for i, v := range hr.Violations {
 			key := v.Harness + ":" + v.Msg
-			dir := filepath.Join(verifDir, "replays", id, fmt.Sprintf("%s_%d", hr.Harness, i))
+			dir := filepath.Join(replayRoot, id, fmt.Sprintf("%s_%d", hr.Harness, i))
 			status := "skipped"
 			if !*noReplay {
 				status = replayViolation(spec, ld, hr.Harness, v, dir)
@@ -647,7 +662,7 @@ func selftest(spec *Spec, ld *loaded, envv *interp.Env, h *ssa.Function, k int, 
 	if len(vectors) == 0 {
 		return 0, nil
 	}
-	dir := filepath.Join(verifDir, "replays", spec.ID, "selftest_"+h.Name())
+	dir := filepath.Join(replayRoot, spec.ID, "selftest_"+h.Name())
 	vecs, err := writeReplayDir(spec, ld, h.Name(), dir, vectors)
 	if err != nil {
 		return 0, []string{err.Error()}
